@@ -81,7 +81,9 @@ void chk_run_case(uint64_t seed, long c, bool is_sweep)
         snprintf(mode, sizeof mode, "random history");
         if (chance(30)) { EP.p_event_step = 0; EP.p_handler_trigger = 0; }
         if (chance(20)) EP.max_cmds = 40;
+        if (chance(15)) { NEXT_WORLD_USE_MUTEX = true; EP.p_handler_trigger = 0; CNT("histories_with_a_mutex_interface"); }      /* an application with a (non-recursive) mutex: a lock the library forgets to release stops every later call */
         eng_gen_table();
+        NEXT_WORLD_USE_MUTEX = false;
         eng_gen_input(1 + rn(12));
         eng_random_schedules();
         classify_stream();
